@@ -502,7 +502,9 @@ def l2_check(case, res):
 
                 c = StepCounter(root, crash_at=k, torn=torn, on_crash=on_crash)
                 outcome, _ = prepare(root, ds, Endpoint(first_word, archive if fmt else DOC), False, c)
-                if outcome != "crashed" or not os.path.isdir(snap):
+                # the kill is modelled by the snapshot taken at the crash point; what the unwinding exception turns into in the live
+                # process (zip extraction wraps every BaseException in a RuntimeError) is irrelevant
+                if not os.path.isdir(snap):
                     v = ("crash-not-injected", f"step {k} {c0.log[k]}: {outcome}")
                 else:
                     v = partial_under_final_name(snap, ds, {}, DOC, archive)
@@ -577,7 +579,7 @@ def l3_check(state, res):
 
             c = StepCounter(root, crash_at=int(k), torn=torn, on_crash=on_crash)
             outcome, _ = prepare(root, ds, Endpoint((), big), False, c)
-            if outcome != "crashed":
+            if not os.path.isdir(snap):
                 crash_desc = "no-crash"
             else:
                 shutil.rmtree(root)
